@@ -21,6 +21,7 @@
      fix_empty              mark_released_area: the incremental branch flags a block that became empty
      fix_reset              reset(): allocation_count is set to 0
      fix_init   DESIGN 7.1  is_initialized(): block_size != 0
+     fix_qpad               query(): an address inside the initial padding granule is rejected (round 5 finding)
    All theorems are about `fixed`; `pinned` is used for `_refuted` witnesses and for the correspondence with an
    unrepaired tree. *)
 From Coq Require Import ZArith List Bool.
@@ -66,9 +67,9 @@ Definition scan (u i e n : Z) : scan_res :=
   scan_runs (S (Z.to_nat (e - i))) (Z.shiftr u i) i e n None.
 
 (* ------------------------------------------------------------------ configuration *)
-Record variant := mkVariant { fix_incr : bool; fix_empty : bool; fix_reset : bool; fix_init : bool }.
-Definition fixed : variant := mkVariant true true true true.
-Definition pinned : variant := mkVariant false false false false.
+Record variant := mkVariant { fix_incr : bool; fix_empty : bool; fix_reset : bool; fix_init : bool; fix_qpad : bool }.
+Definition fixed : variant := mkVariant true true true true true.
+Definition pinned : variant := mkVariant false false false false false.
 
 Record config := mkConfig {
   c_gran : Z;        (* impl->granularity: 64, 128 or 256 *)
@@ -79,6 +80,15 @@ Record config := mkConfig {
   c_var : variant }.
 
 Definition pool_gran (c : config) (p : Z) : Z := c_gran c * 2 ^ p.
+
+
+(* ------------------------------------------------------------------ JitAllocator_new_impl: normalisation of CreateParams
+   (page_gran = VirtMem::info().page_granularity of the host) *)
+Definition is_pow2 (x : Z) : bool := (0 <? x) && (Z.land x (x - 1) =? 0).
+Definition norm_gran (g : Z) : Z := if (g <? 64) || (256 <? g) || negb (is_pow2 g) then 64 else g.
+Definition norm_bsize (page_gran bs : Z) : Z :=
+  if (bs <? 65536) || (268435456 <? bs) || negb (is_pow2 bs) then page_gran else bs.
+Definition norm_pools (multi : bool) : Z := if multi then 3 else 1.
 
 (* ------------------------------------------------------------------ blocks *)
 Record block := mkBlock {
@@ -363,7 +373,7 @@ Definition query (c : config) (st : state) (id off : Z) : result :=
   | Some b =>
     let g := pool_gran c (b_pool b) in
     let idx := off / g in
-    if negb (Z.testbit (b_used b) idx) then RQuery InvalidArgument 0 0 0
+    if negb (Z.testbit (b_used b) idx) || (fix_qpad (c_var c) && (idx <? b_pad b)) then RQuery InvalidArgument 0 0 0
     else RQuery Ok id (idx * g) ((span_end b idx - idx) * g)
   end.
 
